@@ -7,7 +7,7 @@ open Gnpy.Response Gnpy.HE
 open Gnpy.Verdict (Pen)
 
 /-- model tree → wire JSON; floats as {"$f": bits} -/
-partial def jToJson : J Float → Json
+partial def jToJson : Gnpy.Response.J Float → Json
   | .null => Json.null
   | .bool b => Json.bool b
   | .int i => toJson i
@@ -17,7 +17,7 @@ partial def jToJson : J Float → Json
   | .obj l => Json.arr ((l.map (fun kv => Json.arr #[Json.str kv.1, jToJson kv.2])).toArray.push (Json.str "$obj"))
 
 /-- wire JSON → model tree. Objects arrive as [[k, v], ..., "$obj"] so that key order is preserved. -/
-partial def jOfJson : Json → R (J Float)
+partial def jOfJson : Json → R (Gnpy.Response.J Float)
   | .null => pure .null
   | .bool b => pure (.bool b)
   | .str s => pure (.str s)
